@@ -42,6 +42,7 @@ type world struct {
 	bc     *builder.BuildClient
 	sched  *scriptedScheduler
 	exec   *instrumentedExecutor
+	stack  *stackExecutor
 	orc    *oracle
 
 	thread *simsync.Actor
@@ -50,6 +51,7 @@ type world struct {
 
 	// configuration of this run
 	direct       bool // drive Run() from a harness loop instead of LaunchWorkerThread
+	decorated    bool // the real TimestampedBuildExecutor sits between BuildClient and the instrumented executor (as in cmd/bb_worker)
 	faultFree    bool
 	skew         time.Duration
 	timePressure int
@@ -63,6 +65,7 @@ type world struct {
 	shutdown     bool
 	draining     bool
 	terminated   bool
+	abandon      bool // verdict final: executors left behind finish at once (cleanup)
 	inSelect     bool // the thread created a timer and has not yet left Run's select
 	syncs        int
 	drainReplies int
@@ -86,6 +89,7 @@ func newWorld(r *simrun.Run, prop string) *world {
 	t := w.t
 	w.faultFree = t.Bool(1, 4)
 	w.direct = t.Bool(1, 4)
+	w.decorated = t.Bool(3, 4)
 	w.skew = pick(t, []time.Duration{0, 0, 3 * time.Second, -3 * time.Second, 45 * time.Second, -45 * time.Second, 3 * time.Minute})
 	if w.faultFree {
 		w.skew = 0
@@ -109,10 +113,15 @@ func newWorld(r *simrun.Run, prop string) *world {
 	if err != nil {
 		panic(simsync.HarnessError{Msg: err.Error()})
 	}
-	w.bc = builder.NewBuildClient(w.sched, w.exec, nil, w.wclock, map[string]string{"host": "w3", "thread": "0"}, prefix,
+	var base builder.BuildExecutor = w.exec
+	if w.decorated {
+		base = builder.NewTimestampedBuildExecutor(base, w.wclock, "w3")
+	}
+	w.stack = &stackExecutor{w: w, base: base}
+	w.bc = builder.NewBuildClient(w.sched, w.stack, nil, w.wclock, map[string]string{"host": "w3", "thread": "0"}, prefix,
 		&remoteexecution.Platform{Properties: []*remoteexecution.Platform_Property{{Name: "os", Value: "linux"}}}, 0)
 	w.orc.lastNSA = w.wclock.Now()
-	r.Logf("config: direct=%v faultFree=%v skew=%s timePressure=%d maxSyncs=%d shutdownAt=%d execWeight=%d syncWeight=%d faultWeight=%d", w.direct, w.faultFree, w.skew, w.timePressure, w.maxSyncs, w.shutdownAt, w.execWeight, w.syncWeight, w.faultWeight)
+	r.Logf("config: direct=%v decorated=%v faultFree=%v skew=%s timePressure=%d maxSyncs=%d shutdownAt=%d execWeight=%d syncWeight=%d faultWeight=%d", w.direct, w.decorated, w.faultFree, w.skew, w.timePressure, w.maxSyncs, w.shutdownAt, w.execWeight, w.syncWeight, w.faultWeight)
 	return w
 }
 
@@ -288,28 +297,44 @@ func World(prop string) simrun.World {
 }
 
 // cleanup runs after the verdict of the run is final. A worker thread that
-// terminated by time-out leaves its executor goroutine behind; if that
-// goroutine sits in a send on the full update channel it would outlive the
-// bubble. Drain those channels so that every goroutine reaches a park point
-// (where Teardown ends it) or exits.
+// terminated by time-out leaves its executor goroutines behind: the
+// instrumented executor parked at a seam, the decorator's goroutine in its
+// select or in a send on the full update channel. So that none of them
+// outlives the bubble, the instrumented executor is told to finish at once
+// (abandon), the update channels are drained and the remaining actors are
+// stepped until they have exited. Oracles are off.
 func (w *world) cleanup() {
-	if !w.terminated {
+	if !w.terminated || w.k.Failed() {
 		return
 	}
-	for round := 0; round < 64; round++ {
+	w.abandon = true
+	w.k.AfterStep = nil
+	for round := 0; round < 400; round++ {
 		synctest.Wait()
 		drained := false
-		for _, a := range w.orc.acts {
-			if a.updatesRecv == nil {
-				continue
+		for again := true; again; {
+			again = false
+			for _, a := range w.orc.acts {
+				if a.updatesRecv == nil {
+					continue
+				}
+				select {
+				case _, open := <-a.updatesRecv:
+					if open {
+						again, drained = true, true
+					} else {
+						a.updatesRecv = nil
+					}
+				default:
+				}
 			}
-			select {
-			case <-a.updatesRecv:
-				drained = true
-			default:
+			if again {
+				synctest.Wait()
 			}
 		}
-		if !drained {
+		w.k.StopRequested = false
+		quiet := w.k.Run(16)
+		if quiet && !drained {
 			return
 		}
 	}
